@@ -1971,3 +1971,216 @@ Proof.
   exists e. split; [exact He|]. split; [exact H1|]. split; [|exact H3].
   rewrite H2, <- has_ls_asks, Hg. apply see_faithful.
 Qed.
+
+(* ------------------------------------------------------------------ the server stops *)
+(* what JsonRPCServer.shutdown() makes the pool do, as ordinary events *)
+Definition stop_events (s : st) : list ev :=
+  flat_map (fun j => [JobStart j; JobFinish j]) (seq 0 (length (jobs s))).
+
+(* the stop path is a schedule: every theorem about `run` speaks about histories with Stop too *)
+Theorem stop_is_schedule : forall c s, stop c s = run_from c s (stop_events s).
+Proof.
+  intros c s. unfold stop, stop_events, run_from. generalize (seq 0 (length (jobs s))). intro l. revert s.
+  induction l as [|j l IH]; intro s; [reflexivity|]. cbn [fold_left flat_map app]. apply IH.
+Qed.
+
+Lemma calls_of_stop_events : forall s, calls_of (stop_events s) = [].
+Proof.
+  intro s. unfold stop_events. induction (seq 0 (length (jobs s))) as [|j l IH]; [reflexivity|].
+  cbn [flat_map]. rewrite calls_of_app, IH. reflexivity.
+Qed.
+
+Definition basesx (evs : list evx) : list ev := flat_map (fun e => match e with Base e => [e] | Stop => [] end) evs.
+
+Lemma runx_from_is_run : forall c evs s, exists l,
+    fold_left (stepx c) evs s = run_from c s l /\ calls_of l = calls_of (basesx evs).
+Proof.
+  intros c evs. induction evs as [|e evs IH]; intro s; [exists []; split; reflexivity|]. cbn [fold_left].
+  destruct (IH (stepx c s e)) as (l & A & B). destruct e as [e|]; cbn [stepx basesx flat_map] in *.
+  - exists (e :: l). split; [exact A|]. change (e :: l) with ([e] ++ l). rewrite !calls_of_app, B. reflexivity.
+  - exists (stop_events s ++ l). split.
+    + rewrite run_from_app, <- stop_is_schedule. exact A.
+    + rewrite calls_of_app, calls_of_stop_events, B. reflexivity.
+Qed.
+
+Theorem runx_is_run : forall c evs, exists l, runx c evs = run c l /\ calls_of l = calls_of (basesx evs).
+Proof. intros c evs. exact (runx_from_is_run c evs init). Qed.
+
+(* what the stop path does to one pool item: it ends up done, unless it was cancelled before *)
+Definition finish_job (c : cfg) (jb : job) : job :=
+  match j_st jb with
+  | JQueued | JRunning => mkJ (j_inv jb) (j_cb jb) (JDone (res_of c (i_entry (j_inv jb))))
+  | _ => jb
+  end.
+
+Lemma upd_nth_ext : forall (A : Type) (f g : A -> A) l j,
+    (forall x, nth_error l j = Some x -> f x = g x) -> upd_nth j f l = upd_nth j g l.
+Proof.
+  intros A f g l. induction l as [|y r IH]; intros j H; [destruct j; reflexivity|].
+  destruct j as [|j]; cbn [upd_nth].
+  - rewrite (H y eq_refl). reflexivity.
+  - rewrite (IH j); [reflexivity|]. intros x Hx. apply H. exact Hx.
+Qed.
+
+Lemma upd_nth_twice : forall (A : Type) (f g : A -> A) l j, upd_nth j g (upd_nth j f l) = upd_nth j (fun x => g (f x)) l.
+Proof.
+  intros A f g l. induction l as [|y r IH]; intro j; [destruct j; reflexivity|].
+  destruct j as [|j]; cbn [upd_nth]; [reflexivity|]. rewrite IH. reflexivity.
+Qed.
+
+Lemma upd_nth_id : forall (A : Type) (f : A -> A) l j, (forall x, nth_error l j = Some x -> f x = x) -> upd_nth j f l = l.
+Proof.
+  intros A f l. induction l as [|y r IH]; intros j H; [destruct j; reflexivity|].
+  destruct j as [|j]; cbn [upd_nth].
+  - rewrite (H y eq_refl). reflexivity.
+  - rewrite (IH j); [reflexivity|]. intros x Hx. apply H. exact Hx.
+Qed.
+
+Lemma nth_error_upd_same : forall (A : Type) (f : A -> A) l j x, nth_error l j = Some x -> nth_error (upd_nth j f l) j = Some (f x).
+Proof.
+  intros A f l. induction l as [|y r IH]; intros j x H; [destruct j; discriminate|].
+  destruct j as [|j]; cbn [upd_nth nth_error] in *; [inversion H; reflexivity|apply IH, H].
+Qed.
+
+Lemma jobs_start_finish : forall c j s, jobs (job_finish c j (job_start j s)) = upd_nth j (finish_job c) (jobs s).
+Proof.
+  intros c j s. unfold job_start. destruct (nth_error (jobs s) j) as [x|] eqn:E.
+  - destruct (j_st x) eqn:St.
+    + (* queued: started, then finished *)
+      set (s1 := set_job_st j JRunning (invoke OnPool (j_inv x) s)).
+      assert (E1 : nth_error (jobs s1) j = Some (mkJ (j_inv x) (j_cb x) JRunning)).
+      { unfold s1, set_job_st. cbn [jobs set_jobs invoke set_hlog]. exact (nth_error_upd_same _ _ _ _ _ E). }
+      unfold job_finish. rewrite E1. cbn [j_st j_inv j_cb]. cbv zeta.
+      destruct (run_cb_fields (j_cb x) (res_of c (i_entry (j_inv x))) (set_job_st j (JDone (res_of c (i_entry (j_inv x)))) s1)) as (_ & _ & Jb & _).
+      rewrite Jb. unfold s1, set_job_st. cbn [jobs set_jobs invoke set_hlog]. rewrite upd_nth_twice. apply upd_nth_ext.
+      intros y Hy. rewrite E in Hy. inversion Hy; subst y. unfold finish_job. rewrite St. reflexivity.
+    + unfold job_finish. rewrite E, St. cbv zeta.
+      destruct (run_cb_fields (j_cb x) (res_of c (i_entry (j_inv x))) (set_job_st j (JDone (res_of c (i_entry (j_inv x)))) s)) as (_ & _ & Jb & _).
+      rewrite Jb. unfold set_job_st. cbn [jobs set_jobs]. apply upd_nth_ext.
+      intros y Hy. rewrite E in Hy. inversion Hy; subst y. unfold finish_job. rewrite St. reflexivity.
+    + unfold job_finish. rewrite E, St. symmetry. apply upd_nth_id. intros y Hy. rewrite E in Hy. inversion Hy; subst y.
+      unfold finish_job. rewrite St. reflexivity.
+    + unfold job_finish. rewrite E, St. symmetry. apply upd_nth_id. intros y Hy. rewrite E in Hy. inversion Hy; subst y.
+      unfold finish_job. rewrite St. reflexivity.
+  - unfold job_finish. rewrite E. symmetry. apply upd_nth_id. intros y Hy. congruence.
+Qed.
+
+Lemma upd_all_map : forall (A : Type) (f : A -> A) l pre,
+    fold_left (fun l' j => upd_nth j f l') (seq (length pre) (length l)) (pre ++ l) = pre ++ map f l.
+Proof.
+  intros A f l. induction l as [|x l IH]; intro pre; [reflexivity|]. cbn [length seq fold_left map].
+  assert (U : upd_nth (length pre) f (pre ++ x :: l) = (pre ++ [f x]) ++ l).
+  { clear. induction pre as [|p pre IH]; [reflexivity|]. cbn [length app upd_nth]. rewrite IH. reflexivity. }
+  rewrite U. replace (S (length pre)) with (length (pre ++ [f x])) by (rewrite app_length; cbn; lia).
+  rewrite IH, <- app_assoc. reflexivity.
+Qed.
+
+Theorem stop_jobs : forall c s, jobs (stop c s) = map (finish_job c) (jobs s).
+Proof.
+  intros c s. unfold stop.
+  assert (G : forall l s0, jobs (fold_left (fun s' j => job_finish c j (job_start j s')) l s0) =
+                           fold_left (fun l' j => upd_nth j (finish_job c) l') l (jobs s0)).
+  { induction l as [|j l IH]; intro s0; [reflexivity|]. cbn [fold_left]. rewrite IH, jobs_start_finish. reflexivity. }
+  rewrite G. exact (upd_all_map _ (finish_job c) (jobs s) []).
+Qed.
+
+(* after the stop path no pool item is waiting or running *)
+Theorem stop_jobs_idle : forall c s, forallb job_idle (jobs (stop c s)) = true.
+Proof.
+  intros c s. rewrite stop_jobs. apply forallb_forall. intros jb H. apply in_map_iff in H. destruct H as (x & <- & _).
+  unfold finish_job, job_idle. destruct (j_st x) eqn:St; cbn [j_st]; try reflexivity; rewrite St; reflexivity.
+Qed.
+
+Lemma no_wait_upd : forall c l j, forallb (fun jb => negb (j_wait jb)) l = true ->
+    forallb (fun jb => negb (j_wait jb)) (upd_nth j (finish_job c) l) = true.
+Proof.
+  intros c l. induction l as [|y r IH]; intros j H; [destruct j; reflexivity|].
+  cbn [forallb] in H. apply andb_true_iff in H. destruct H as [A B].
+  destruct j as [|j]; cbn [upd_nth forallb]; apply andb_true_iff; split; auto.
+  unfold finish_job, j_wait in *. destruct (j_st y) eqn:St; cbn [j_st]; try reflexivity; rewrite St; reflexivity.
+Qed.
+
+(* the stop path never rewrites the log: what it adds are the starts of pool items that were still
+   queued (on the pool); with nothing queued the log is left as it is *)
+Theorem stop_preserves_log : forall c s,
+    (exists new, hlog (stop c s) = hlog s ++ new /\ Forall (fun h => h_site h = OnPool) new) /\
+    (forallb (fun jb => negb (j_wait jb)) (jobs s) = true -> hlog (stop c s) = hlog s) /\
+    ws (stop c s) = ws s /\ nmsg (stop c s) = nmsg s.
+Proof.
+  intros c s. unfold stop. generalize (seq 0 (length (jobs s))). intro l. revert s.
+  induction l as [|j l IH]; intro s; cbn [fold_left].
+  - repeat split; auto. exists []. rewrite app_nil_r. split; [reflexivity|constructor].
+  - set (s1 := job_finish c j (job_start j s)). destruct (IH s1) as ((new & A & B) & C & D & E).
+    destruct (step_log c s (JobStart j)) as (L1 & W1 & N1). destruct (step_log c (job_start j s) (JobFinish j)) as (L2 & W2 & N2).
+    cbn [step new_log next_ws next_n] in L1, W1, N1, L2, W2, N2. rewrite app_nil_r in L2. fold s1 in L2, W2, N2.
+    set (nl := match nth_error (jobs s) j with
+               | Some jb => match j_st jb with JQueued => [hent OnPool (j_inv jb) (ws s)] | _ => [] end
+               | None => [] end) in *.
+    assert (Hn1 : Forall (fun h => h_site h = OnPool) nl).
+    { unfold nl. destruct (nth_error (jobs s) j) as [jb|]; [|constructor]. destruct (j_st jb); constructor; [reflexivity|constructor]. }
+    assert (Hn2 : forallb (fun jb => negb (j_wait jb)) (jobs s) = true -> nl = []).
+    { intro Q. unfold nl. destruct (nth_error (jobs s) j) as [jb|] eqn:Ej; [|reflexivity].
+      rewrite forallb_forall in Q. specialize (Q jb (nth_error_In _ _ Ej)). unfold j_wait in Q. destruct (j_st jb); try reflexivity. discriminate. }
+    repeat split.
+    + exists (nl ++ new). rewrite A, L2, L1, app_assoc. split; [reflexivity|]. apply Forall_app. split; assumption.
+    + intro Q. rewrite C; [rewrite L2, L1, (Hn2 Q), app_nil_r; reflexivity|].
+      unfold s1. rewrite jobs_start_finish. apply no_wait_upd, Q.
+    + rewrite D, W2, W1. reflexivity.
+    + rewrite E, N2, N1. reflexivity.
+Qed.
+
+(* with the pool idle, what has not started for a key whose loop tasks are through was cancelled
+   before it started - and that only happens to request futures *)
+Lemma unstarted_bound : forall s q, K s -> forallb job_idle (jobs s) = true ->
+    Forall (fun tk => key_eqb q (ikey (t_inv tk)) = true -> task_idle tk = true) (tasks s) ->
+    (unstarted q s <= cnt (t_key_req q) (tasks s) + cnt (j_key_req q) (jobs s))%nat.
+Proof.
+  intros s q (_ & K2 & K3) Q2 Q1. unfold unstarted. apply Nat.add_le_mono.
+  - clear K3 Q2. induction (tasks s) as [|tk l IH]; [cbn; lia|]. inversion K2; subst. inversion Q1; subst.
+    specialize (IH H2 H4). unfold cnt in *. cbn [filter]. unfold t_un at 1, t_key_req at 1.
+    destruct (key_eqb q (ikey (t_inv tk))); cbn [andb]; [|exact IH]. specialize (H3 eq_refl).
+    destruct (req_cb (t_cb tk)) eqn:R.
+    + destruct (t_wait tk || t_drop tk); cbn [length]; lia.
+    + unfold task_idle in H3. destruct (H1 R) as [X|(r & Hr & [X|X])]; unfold t_wait, t_drop; rewrite X in *; try discriminate.
+      destruct r; try congruence; cbn; exact IH.
+  - clear K2 Q1. induction (jobs s) as [|jb l IH]; [cbn; lia|]. inversion K3; subst.
+    cbn [forallb] in Q2. apply andb_true_iff in Q2. destruct Q2 as [Q Q2]. specialize (IH H2 Q2).
+    unfold cnt in *. cbn [filter]. unfold j_un at 1, j_key_req at 1.
+    destruct (key_eqb q (ikey (j_inv jb))); cbn [andb]; [|exact IH].
+    destruct (req_cb (j_cb jb)) eqn:R.
+    + destruct (j_wait jb || j_drop jb); cbn [length]; lia.
+    + unfold job_idle in Q. unfold j_wait, j_drop. specialize (H1 R). destruct (j_st jb); try discriminate; try congruence; cbn; exact IH.
+Qed.
+
+Lemma basesx_snoc_stop : forall evs, basesx (evs ++ [Stop]) = basesx evs.
+Proof. intro evs. unfold basesx. rewrite flat_map_app. cbn. apply app_nil_r. Qed.
+
+(* once each, over histories that end in the server's stop path: every handler that is not a request
+   future and is not a loop task still on its way - every @thread handler of a notification or chained
+   after a built-in in particular - has started exactly as often as the reference says when
+   JsonRPCServer.shutdown() returns, whatever was still queued in the pool when it was called *)
+Theorem once_after_stop : forall c evs n k p,
+    let s := runx c (evs ++ [Stop]) in let ks := calls_of (basesx evs) in
+    nth_error ks n = Some k -> fut_part c k p = false ->
+    Forall (fun tk => key_eqb (n, p) (ikey (t_inv tk)) = true -> task_idle tk = true) (tasks s) ->
+    started (n, p) s = owes c (spec_ws c (firstn n ks)) n k (n, p).
+Proof.
+  intros c evs n k p s ks Hk Hf Ht.
+  destruct (runx_is_run c (evs ++ [Stop])) as (l & Hl & Hc). rewrite basesx_snoc_stop in Hc. fold ks in Hc. fold s in Hl.
+  assert (Hj : forallb job_idle (jobs s) = true).
+  { unfold s, runx. rewrite fold_left_app. cbn [fold_left stepx]. apply stop_jobs_idle. }
+  pose proof (balance c l (n, p)) as B. rewrite <- Hl, Hc in B. unfold tot in B.
+  pose proof (K_run c l) as HK. rewrite <- Hl in HK. destruct (M_run c l) as (M1 & M2 & _). rewrite <- Hl, Hc in M1, M2.
+  pose proof (unstarted_bound s (n, p) HK Hj Ht) as U.
+  rewrite (no_req_tasks c ks n k p _ Hk Hf M1), (no_req_jobs c ks n k p _ Hk Hf M2) in U.
+  rewrite <- (owed_message c ks n k p Hk). lia.
+Qed.
+
+(* balance, at most once and built-in first hold of every history with stops *)
+Theorem stop_history_invariants : forall c evs,
+    let s := runx c evs in let ks := calls_of (basesx evs) in
+    ordb (bset c) [] (hlog s) = true /\ (forall q, (started q s <= 1)%nat) /\ (forall q, tot q s = owed c w0 0 ks q).
+Proof.
+  intros c evs s ks. destruct (runx_is_run c evs) as (l & Hl & Hc). unfold s. rewrite Hl. unfold ks. rewrite <- Hc.
+  split; [exact (proj1 (O_run c l))|]. split; [intro q; apply at_most_once|intro q; apply balance].
+Qed.
